@@ -637,6 +637,29 @@ func (w *vfC10World) freeAddrs() (free []netip.Addr, macKnown map[string]bool) {
 	return free, macKnown
 }
 
+// abandonedOffers lists the pool addresses whose only entry in the table is an
+// offer that no client has ever had acknowledged (and that are not reserved).
+func (w *vfC10World) abandonedOffers() (addrs []netip.Addr) {
+	held := map[netip.Addr]bool{}
+	for _, h := range w.holders {
+		held[h.IP] = true
+	}
+	for _, ip := range w.statics {
+		held[ip] = true
+	}
+	everAcked := map[netip.Addr]bool{}
+	for _, ip := range w.acked {
+		everAcked[ip] = true
+	}
+	for _, a := range w.pool {
+		if !held[a] && !everAcked[a] {
+			addrs = append(addrs, a)
+		}
+	}
+
+	return addrs
+}
+
 // checkAssigned is the per-reply half of the statement: the address put into an
 // OFFER or ACK for mac must be one this client may be given.
 func (w *vfC10World) checkAssigned(mac string, r vfC10Reply) {
@@ -832,6 +855,14 @@ func (w *vfC10World) apply(op vfC10Op) (outcome string) {
 	case "discover":
 		free, known := w.freeAddrs()
 		mustOffer := !known[op.MAC] && len(free) > 0
+		// An address that was only ever offered, never acknowledged, is
+		// "neither leased nor reserved" too: with nothing else free, a new
+		// client must be offered one of those.
+		abandoned := w.abandonedOffers()
+		if !known[op.MAC] && len(free) == 0 && len(abandoned) > 0 {
+			mustOffer, free = true, abandoned
+			w.flags["only_abandoned_offers_free"] = true
+		}
 		if op.IP != "" {
 			hostMod = append(hostMod, dhcpv4.WithOption(dhcpv4.OptRequestedIPAddress(vfC10IPOpt(op.IP))))
 		}
@@ -843,8 +874,11 @@ func (w *vfC10World) apply(op vfC10Op) (outcome string) {
 				w.flags["last_free_after_reservation"] = true
 			}
 			if r.Type != "offer" {
-				w.fail("DISCOVER from the new client %s got %q although %v of the pool appear in no lease and no reservation",
-					op.MAC, r, free)
+				what := "appear in no lease and no reservation"
+				if w.flags["only_abandoned_offers_free"] && len(abandoned) > 0 && len(free) == len(abandoned) {
+					what = "were at most offered, never acknowledged to anybody, and are not reserved"
+				}
+				w.fail("DISCOVER from the new client %s got %q although %v of the pool %s", op.MAC, r, free, what)
 			}
 		case !known[op.MAC]:
 			// No pool address is free of lease entries.  Whether an entry of an
